@@ -53,6 +53,7 @@ func run(r *common.Run) error {
 		case "fuzz":
 			c.corpus()
 			c.paged()
+			c.formRoundTrips()
 			c.systematic()
 			c.random()
 		case "sizes":
